@@ -460,6 +460,16 @@ func render(f *ach.File) (s string, failed bool) {
 		}
 	}()
 	b, err := writeFile(f, true)
+	// an empty FileCreationDate / FileCreationTime is written as the wall clock (time.Now in the field accessors):
+	// those columns of the file header are not a function of the file and are masked
+	if len(b) >= 33 && b[0] == '1' && f != nil {
+		if f.Header.FileCreationDate == "" {
+			copy(b[23:29], "DDDDDD")
+		}
+		if f.Header.FileCreationTime == "" {
+			copy(b[29:33], "TTTT")
+		}
+	}
 	return string(b), err != nil
 }
 
